@@ -21,14 +21,15 @@ import (
 // the harness (no history, no common map): harness bookkeeping must not synchronise them either.
 
 type RaceCase struct {
-	Sched   SchedSpec `json:"sched"`
-	World   WorldSpec `json:"world"`
-	Kind    string    `json:"kind"` // firstuse | mix | create | pool
-	Keys    []string  `json:"keys"`
-	Init    []Op      `json:"init,omitempty"`
-	Clients [][]Op    `json:"clients"`
-	Pool    *PoolCase `json:"pool,omitempty"`
-	Reopen  bool      `json:"reopen,omitempty"` // close and open the database again after Init, before the clients start
+	Sched         SchedSpec `json:"sched"`
+	World         WorldSpec `json:"world"`
+	Kind          string    `json:"kind"` // firstuse | mix | create | pool
+	Keys          []string  `json:"keys"`
+	Init          []Op      `json:"init,omitempty"`
+	Clients       [][]Op    `json:"clients"`
+	Pool          *PoolCase `json:"pool,omitempty"`
+	ReadDirFaults int       `json:"readdir_faults,omitempty"` // this many directory listings fail (EIO) once the clients have started
+	Reopen        bool      `json:"reopen,omitempty"`         // close and open the database again after Init, before the clients start
 }
 
 type propC15 struct{}
@@ -145,6 +146,22 @@ func (propC15) Gen(r *simrt.Rand, idx int, tier string) any {
 			c.Clients = append(c.Clients, []Op{o, {K: "get", Key: o.Key}})
 		}
 	case 7:
+		if idx%16 == 15 {
+			// the listing of a content directory fails for a moment (EIO) while clients write: the
+			// writes that hit it fail, nothing else may happen
+			c.Kind = "readdir-fault"
+			c.ReadDirFaults = 1 + r.Intn(3)
+			for len(c.World.Roots) < 2 {
+				c.World.Roots = append(c.World.Roots, RootSpec{})
+			}
+			for _, k := range c.Keys {
+				c.Init = append(c.Init, newSet(0, k), newSet(0, k))
+			}
+			for ci := 0; ci < 2; ci++ {
+				c.Clients = append(c.Clients, []Op{newSet(0, key()), newSet(0, key()), {K: "get", Key: key()}, newSet(0, key())})
+			}
+			break
+		}
 		if idx%16 == 7 {
 			// an existing database is opened again while its own background work (the periodic
 			// collector above all, with a period of microseconds) is already running: start-up against
@@ -379,6 +396,9 @@ func (propC15) Exec(x any, choices []int32) RunOut {
 					infra = "reopen: " + err.Error()
 					return
 				}
+			}
+			if c.ReadDirFaults > 0 && w.Disk != nil {
+				w.Disk.FailReadDirs = c.ReadDirFaults
 			}
 			var wg simrt.WaitGroup
 			for i, ops := range c.Clients {
